@@ -84,7 +84,7 @@ def readOp (content : String) (evs : List Sexp) : Except String Sexp := do
     | .ok (blocks, _) => .list [.atom "some", .str (Flat.blocks blocks)]
     | .error _ => .atom "none"
   let flat : Sexp := .list [.atom "flat", .atom (if Flat.htmlTextFree [] evs then "true" else "false"),
-    .str (Flat.events false evs), flatBlocks]
+    .str (Flat.events false evs), flatBlocks, .list (.atom "levels" :: (Outline.levelsEv [] evs).map natS)]
   return .list [.atom "reader", .atom grammar, result, flat]
 
 end Iwe.ReaderOps
